@@ -7,3 +7,6 @@ import AioftpModel.Model.Paths
 import AioftpModel.Lemmas.Paths
 import AioftpModel.Properties.C02
 import AioftpModel.Driver.Codec
+import AioftpModel.Model.FsMem
+import AioftpModel.Model.Session
+import AioftpModel.Driver.Session
